@@ -584,7 +584,15 @@ func layout(parent []int, axis int, dir int, corner int) []box {
 	return boxes
 }
 
+// farOffset: the same forests 2^24 units from the origin (an exact translation: the gaps between nested shells, a few
+// tenths, are then 1e-8 of the coordinates - far above double precision, below single precision)
+var farOffset = model3d.XYZ(1<<24, -(1 << 25), 1<<23)
+
 func checkNesting(r *ev.Run, parent []int, axis, dir, corner int, tall bool) {
+	checkNestingAt(r, parent, axis, dir, corner, tall, c3{})
+}
+
+func checkNestingAt(r *ev.Run, parent []int, axis, dir, corner int, tall bool, off c3) {
 	boxes := layout(parent, axis, dir, corner)
 	if tall {
 		// stretch along z: tall columns
@@ -592,6 +600,9 @@ func checkNesting(r *ev.Run, parent []int, axis, dir, corner int, tall bool) {
 			boxes[i].min.Z *= 6
 			boxes[i].max.Z *= 6
 		}
+	}
+	for i := range boxes {
+		boxes[i].min, boxes[i].max = boxes[i].min.Add(off), boxes[i].max.Add(off)
 	}
 	var all []tri
 	depth := make([]int, len(boxes))
@@ -614,6 +625,9 @@ func checkNesting(r *ev.Run, parent []int, axis, dir, corner int, tall bool) {
 		bl = append(bl, []float64{b.min.X, b.min.Y, b.min.Z, b.max.X, b.max.Y, b.max.Z})
 	}
 	c := mcase{Kind: "nesting", Mesh: fmt.Sprintf("forest %v axis %d dir %d corner %d tall %v", parent, axis, dir, corner, tall), Pattern: parent, Boxes: bl}
+	if off != (c3{}) {
+		c.Mesh += fmt.Sprintf(" moved by %v", off)
+	}
 	r.Eval(1)
 	viol := func(kind, msg string) { r.Violation(kind, c.Mesh+": "+msg, c) }
 	m := mesh(all)
@@ -678,7 +692,7 @@ func checkNesting(r *ev.Run, parent []int, axis, dir, corner int, tall bool) {
 	for x := 0.13; x < 8; x += 0.37 {
 		for y := 0.21; y < 8; y += 0.37 {
 			for z := 0.17; z < zmax; z += zmax / 21 {
-				p := model3d.XYZ(x, y, z)
+				p := model3d.XYZ(x, y, z).Add(off)
 				cnt := 0
 				onFace := false
 				for _, b := range boxes {
@@ -1018,6 +1032,7 @@ func main() {
 					for corner := 0; corner < 8; corner++ {
 						for _, tall := range []bool{false, true} {
 							checkNesting(r, c.Pattern, axis, dir, corner, tall)
+							checkNestingAt(r, c.Pattern, axis, dir, corner, tall, farOffset)
 						}
 					}
 				}
@@ -1116,6 +1131,9 @@ func main() {
 		ev.Parallel(len(jobs), 0, func(i int) {
 			j := jobs[i]
 			checkNesting(r, j.parent, j.axis, j.dir, j.corner, j.tall)
+			if (i%3 == 0 || r.Thorough()) && len(j.parent) > 1 {
+				checkNestingAt(r, j.parent, j.axis, j.dir, j.corner, j.tall, farOffset)
+			}
 			if !j.tall {
 				checkNesting2D(r, j.parent, j.axis, j.dir, j.corner)
 			}
